@@ -239,6 +239,8 @@ class Gen:
                'cfg %d %d %d %d %d' % (c['spb'], c['lbits'], c['simple'], c['nothrow'], c['destructive'])]
         for k, h in keys.items():
             hdr.append('key %d %d' % (k, h))
+        if c['simple'] == 0 and r.random() < 0.4:
+            hdr.append('lvalues 1')      # insertion-type calls receive lvalue arguments (never consumed)
         self.emit(0, 'new %d' % r.choice([0, 1, 2, 3, 4, 5, 8, 9, 16, 17, 32, 64]))
         self.exists[0] = True
         # protect the run against unbounded doubling: a hashpower limit is always in force
